@@ -5,3 +5,6 @@ package config
 
 // verifNetTimeout is only settable in verification builds.
 const verifNetTimeout = 0
+
+// verifHeartbeat is only settable in verification builds.
+const verifHeartbeat = 0
